@@ -248,7 +248,9 @@ func (e Eff) OnDB(p, db string) bool { return e.Global(p) || e.Levels[db+".*"][p
 func (e Eff) OnTable(p, db, tbl string) bool { return e.OnDB(p, db) || e.Levels[db+"."+tbl][p] }
 
 // OnProc reports a privilege effective for a procedure (global, database or routine level).
-func (e Eff) OnProc(p, db, proc string) bool { return e.OnDB(p, db) || e.Levels["proc:"+db+"."+proc][p] }
+func (e Eff) OnProc(p, db, proc string) bool {
+	return e.OnDB(p, db) || e.Levels["proc:"+db+"."+proc][p]
+}
 
 // Where names the most general level that supplies the privilege for a table ("global", "db", "table", "none").
 func (e Eff) Where(p, db, tbl string) string {
